@@ -9,10 +9,12 @@ def job(args):
     (pid, tier, seed, name, desc, targets, props, opts) = args
     from .sched import SchedAdapter
 
+    opts = dict(opts)
+    # safety net: a (mutated) tree whose state space does not close must not
+    # hang the check; a capped run is reported as not exhaustive
+    cap = opts.pop('max_states', None) or (400000 if tier == 'quick' else 4000000)
     ad = SchedAdapter(desc, targets, props, **opts)
-    ex = explore.Explorer(ad, max_states=opts.get('max_states'),
-                          keep_graph='C04' in props)
-    ex.max_states = opts.get('max_states')
+    ex = explore.Explorer(ad, max_states=cap, keep_graph='C04' in props)
     res = ex.run()
     rng = random.Random(seed)
     bad = ex.selfcheck(res, rng, 40 if tier == 'quick' else 400)
